@@ -136,12 +136,28 @@ func handBuilt(m *c16Model, l *c16Log) *z.StructSchema {
 	}
 	s := z.Struct(sm)
 	for _, id := range m.tests {
-		s.TestFunc(l.test(id), z.IssueCode(fmt.Sprintf("t%d", id)))
+		s.TestFunc(l.test(id), c16TestOpts(id)...)
 	}
 	for _, id := range m.posts {
 		s.PostTransform(l.post(id))
 	}
 	return s
+}
+
+// c16TestOpts: the options a struct-level test is declared with (a function of its id, so that the schema written out
+// by hand declares the same ones): always a code, for some ids also an IssuePath, Params or a Message
+func c16TestOpts(id int) []z.TestOption {
+	o := []z.TestOption{z.IssueCode(fmt.Sprintf("t%d", id))}
+	if id%3 == 0 {
+		o = append(o, z.IssuePath(fmt.Sprintf("moved.p%d", id)))
+	}
+	if id%4 == 1 {
+		o = append(o, z.Params(map[string]any{"id": id}))
+	}
+	if id%5 == 2 {
+		o = append(o, z.Message(fmt.Sprintf("message of test %d", id)))
+	}
+	return o
 }
 
 func c16Observe(s *z.StructSchema, l *c16Log, in any) (string, string) {
@@ -154,7 +170,7 @@ func c16Observe(s *z.StructSchema, l *c16Log, in any) (string, string) {
 			continue
 		}
 		for _, is := range list {
-			iss = append(iss, fmt.Sprintf("%s|%s|%s", is.Path, is.Code, is.Dtype))
+			iss = append(iss, fmt.Sprintf("%s|%s|%s|%s|%v", is.Path, is.Code, is.Dtype, is.Message, is.Params))
 		}
 	}
 	sort.Strings(iss)
@@ -187,7 +203,7 @@ func propC16(c c16Case) (v hh.Verdict) {
 			}
 			s := z.Struct(sm)
 			for i := 0; i < op.Tests; i++ {
-				s.TestFunc(l.test(nextID), z.IssueCode(fmt.Sprintf("t%d", nextID)))
+				s.TestFunc(l.test(nextID), c16TestOpts(nextID)...)
 				m.tests = append(m.tests, nextID)
 				nextID++
 			}
@@ -302,7 +318,7 @@ func propC16(c c16Case) (v hh.Verdict) {
 			if op.Src >= len(live) {
 				continue
 			}
-			live[op.Src].TestFunc(l.test(nextID), z.IssueCode(fmt.Sprintf("t%d", nextID)))
+			live[op.Src].TestFunc(l.test(nextID), c16TestOpts(nextID)...)
 			models[op.Src].tests = append(models[op.Src].tests, nextID)
 			nextID++
 			laterAdd = laterAdd || siblingsExist(derivedFrom, op.Src)
